@@ -211,6 +211,11 @@ pub fn get_insertion_index(position: &Position, text: &str) -> usize {
             return i;
         }
         if c == '\n' {
+            if line == position.line {
+                // a character offset behind the end of the line means the end of the line,
+                // which is in front of its line break
+                return if text[..i].ends_with('\r') { i - 1 } else { i };
+            }
             line += 1;
             character = 0;
         } else {
